@@ -1,5 +1,5 @@
 #!/usr/bin/env python3
-"""Regenerate lean/LdkModel/Generated/TlvSchemas.lean (+ tlv_schemas.json) from /repo's current Rust sources.
+"""Regenerate lean/LdkModel/Generated/TlvSchemas.lean + TlvFieldPairs.lean (+ tlv_schemas.json / .txt) from /repo's current Rust sources.
 
 Every TLV block of the persisted-object serialization code is extracted as a list of
 (type number, kind class):
@@ -30,6 +30,15 @@ is excluded).  Only type numbers and kinds are extracted, not field types.  Kind
 Hand-written write/read blocks of the same `impl … for Type` are paired (k-th write block with k-th
 read block of the type; explicit overrides in PAIRS) and emitted as `tlvPairs` — Props/C12 proves that
 every type a writer emits is known to the paired reader.
+
+FIELD-LEVEL pairing (lean/LdkModel/Generated/TlvFieldPairs.lean): for every resolved pair and every TLV type present on
+both sides, the struct field the writer takes the value from and the struct field the reader restores from the record of
+that type (see the comment above `writer_paths`), as `tlvFieldRows`; per write block the field paths it writes
+(`tlvWriterFields`); the constructor fields a paired reader initialises with a constant (`tlvReaderConstFields`).
+Props/C12 proves `writer_reader_fields_agree`, `field_exceptions_exact`, `no_field_written_twice`,
+`reader_constant_fields_exact` over them.  Shape changes — a reader binding something that is not an identifier, a pair
+whose blocks have no analysable enclosing fn, fewer than 300 rows or fewer than half of them resolved to struct fields
+on both sides — are a TRANSLATE-ERROR.
 
 Exit 2 with `TRANSLATE-ERROR …` when an invocation cannot be parsed.  Invocations that are deliberately
 not extracted are listed in SKIP with the reason (and emitted in the json as "skipped").
